@@ -242,6 +242,36 @@ theorem summary_ok_iff {R : Type} [LawfulCapOps R] (a : Int) (r : R) (used amoun
   simp only [Gen.summaryExceeded, Bool.or_eq_false_iff, decide_eq_false_iff_not, Int.not_lt, gt_iff_lt]
   rw [h]
 
+/-- the provider summaries the merge stage reads (`psum_res_by_rp_rc`) are built from the inventories: used = the
+usage of the key, capacity = `int((total - reserved) * allocation_ratio)`, max_unit -/
+def LimitsFrom {R : Type} [CapOps R] (db : DB R) (ctx : Ctx) (k : Nat × Nat) : Prop :=
+  ∃ inv ∈ db.invs, inv.rp = k.1 ∧ inv.rc = k.2 ∧
+    limitOf ctx k = (db.usage k.1 k.2, CapOps.capTrunc (inv.total - inv.reserved) inv.ratio, inv.maxUnit) ∧
+    CapOps.capLt (inv.total - inv.reserved) inv.ratio 0 = false ∧
+    ∀ inv' ∈ db.invs, inv'.rp = k.1 → inv'.rc = k.2 → inv' = inv
+
+/-- **`exceeds_capacity` on a merged request = item 7 of the specification for each of its entries** -/
+theorem exceeds_iff_limitOk {R : Type} [LawfulCapOps R] (db : DB R) (ctx : Ctx) (st : Store) (a : Areq)
+    (hlim : ∀ i ∈ a.arrs, LimitsFrom db ctx ((getArr st i).rp, (getArr st i).rc)) :
+    exceeds ctx st a = false ↔
+      ∀ i ∈ a.arrs, limitOk db (((getArr st i).rp, (getArr st i).rc), (getArr st i).amount) := by
+  unfold exceeds
+  rw [List.any_eq_false]
+  constructor
+  · intro h i hi
+    obtain ⟨inv, hinv, hrp, hrc, hl, hnn, _⟩ := hlim i hi
+    have := h i hi
+    simp only [hl, Bool.not_eq_true] at this
+    have h2 := (summary_ok_iff (inv.total - inv.reserved) inv.ratio _ _ _ hnn).mp this
+    exact ⟨inv, hinv, hrp, hrc, h2.1, h2.2⟩
+  · intro h i hi
+    obtain ⟨inv, hinv, hrp, hrc, hl, hnn, huniq⟩ := hlim i hi
+    obtain ⟨inv', hinv', hrp', hrc', hcap, hmax⟩ := h i hi
+    have he : inv' = inv := huniq inv' hinv' hrp' hrc'
+    subst he
+    simp only [hl, Bool.not_eq_true]
+    exact (summary_ok_iff (inv'.total - inv'.reserved) inv'.ratio _ _ _ hnn).mpr ⟨hcap, hmax⟩
+
 /-! ### amounts -/
 
 /-- the placements of the specification as resource objects -/
